@@ -23,4 +23,4 @@ def run(ck):
 
 
 def replay(ck, path):
-    run(ck)
+    engine.replay(ck, 'C07', path, run)
